@@ -414,7 +414,7 @@ export function same(a, b, seen = new Map()) {
 }
 
 export function show(v, depth = 0) {
-  if (typeof v === 'string') return JSON.stringify(v)
+  if (typeof v === 'string') return JSON.stringify(v).replace(/[\u007f-\u00a0\u00ad\u2000-\u200f\u2028\u2029\ufeff]/g, (c) => '\\u' + c.charCodeAt(0).toString(16).padStart(4, '0'))
   if (typeof v === 'number') return Object.is(v, -0) ? '-0' : String(v)
   if (typeof v === 'function') return `[Function ${v.name || 'anonymous'}]`
   if (v === undefined) return 'undefined'
@@ -452,7 +452,11 @@ export function genExpr(rng, depth, ctx) {
   switch (kind) {
     case 'bin': {
       const op = rng.pick(BINARY)[0]
-      if (op === 'instanceof') return bin(op, sub(), id(rng.pick(ctx.ctors || ['Ctor'])))
+      if (op === 'instanceof') {
+        // the right operand must be callable wherever the expression is evaluated (anything else throws in JS)
+        if (ctx.ctors === null) return bin('<', sub(), sub())
+        return bin(op, sub(), id(rng.pick(ctx.ctors || ['Ctor'])))
+      }
       return bin(op, sub(), sub())
     }
     case 'un': return un(rng.pick(UNARY), sub())
